@@ -196,7 +196,9 @@ def handle(cmd, args):
         r = P.match_single(pt, ins)
         r2 = P.match([(pt, ins)])
         if r is None or r2 is None:
-            return '(false no-match single=%s list=%s)' % (r is not None, r2 is not None)
+            # the expanded pattern and the keys of theta go with the answer, so that the caller can classify the failure
+            return '(false no-match single=%s list=%s (pattern %s) (theta-keys %s))' % (
+                r is not None, r2 is not None, sx.pat_to_s(full(pt)), ' '.join(str(k) for k in theta))
         for k in pt.metavars():
             if k in theta:
                 if k not in r or full(r[k]) != full(theta[k]):
